@@ -9,6 +9,7 @@
 (*   req   : <<filler>>, <<filler, payload_over>>, <<dup_queue>>           *)
 (*   pad   : length 4 inside 996 / 997 acceptable items (front / behind)   *)
 (*   queue : all-filler batches and a few refused ones                     *)
+(*   bigq  : 251 .. 1000 items into a queue with room for a part of them   *)
 (***************************************************************************)
 EXTENDS AdminPublishMC, Json
 
@@ -35,6 +36,7 @@ Selected ==
             items \in {<<fl>>, <<fl, "payload_over">>, <<"dup_queue">>}
        [] fr.sel = "pad" ->
             n = 4 /\ (NonFill \subseteq {4} \/ NonFill \subseteq {1})
+       [] fr.sel = "bigq" -> TRUE
        [] fr.sel = "queue" ->
             \/ NonFill = {}
             \/ items \in {<<fl, "payload_over">>, <<fl, fl, "dup_queue">>, <<"dup_queue", fl>>, <<fl, fl, fl, "dup_prev">>}
